@@ -5,7 +5,9 @@ From NV Require Import Types.Syntax Types.Sem Types.Pure.
 Close Scope Q_scope.
 Open Scope string_scope.
 
+(* candidates: semantic types (sets of values) and semantic rows (sets of field lists) *)
 Definition cand := whnf -> Prop.
+Definition rcand := list (string * thunk) -> Prop.
 
 (* an outcome is acceptable at a semantic type: a value of the type, an error that is not a dynamic
    type error of typed origin, or divergence *)
@@ -22,35 +24,42 @@ Definition TT (P : cand) (t : thunk) : Prop := forall n, ok_out P (eval_thunk n 
 Definition app_out (n : nat) (v : whnf) (t : thunk) : outcome whnf :=
   apply_with (eval n) MTyped v t.
 
-Definition name_of (v : whnf) : option string :=
-  match v with VTag t => Some t | VVariant t _ => Some t | _ => None end.
+(* the enum row a value belongs to: its tag and whether it carries a payload *)
+Definition key_of (v : whnf) : option (string * bool) :=
+  match v with VTag t => Some (t, false) | VVariant t _ => Some (t, true) | _ => None end.
 
-Fixpoint V (T : ty) (d : list cand) (v : whnf) {struct T} : Prop :=
+(* the fields other than [f] *)
+Definition remove_field (f : string) (fs : list (string * thunk)) : list (string * thunk) :=
+  filter (fun ft => negb (String.eqb (fst ft) f)) fs.
+
+Fixpoint V (T : ty) (d : list cand) (dr : list rcand) (v : whnf) {struct T} : Prop :=
   match T with
   | TDyn => pure_whnf v
   | TNum => exists q, v = VNum q
   | TStr => exists s, v = VStr s
   | TBool => exists b, v = VBool b
-  | TArr T' => exists ts, v = VArr ts /\ Forall (TT (V T' d)) ts
-  | TFun A B => forall t, TT (V A d) t -> forall n, ok_out (V B d) (app_out n v t)
-  | TRec r => exists fs, v = VRec fs /\ Vrows r d fs
-  | TDict T' => exists fs, v = VRec fs /\ Forall (fun ft => TT (V T' d) (snd ft)) fs
-  | TEnum e => Verows e d v
+  | TArr T' => exists ts, v = VArr ts /\ Forall (TT (V T' d dr)) ts
+  | TFun A B => forall t, TT (V A d dr) t -> forall n, ok_out (V B d dr) (app_out n v t)
+  | TRec r => exists fs, v = VRec fs /\ NoDup (map fst fs) /\ Vrows r d dr fs
+  | TDict T' => exists fs, v = VRec fs /\ Forall (fun ft => TT (V T' d dr) (snd ft)) fs
+  | TEnum e => Verows e d dr v
   | TVar i => nth i d (fun _ => False) v
-  | TForall T' => forall R : cand, V T' (R :: d) v
+  | TForall T' => forall R : cand, V T' (R :: d) dr v
+  | TForallR T' => forall R : rcand, V T' d (R :: dr) v
   end
-with Vrows (r : rows) (d : list cand) (fs : list (string * thunk)) {struct r} : Prop :=
-  match r, fs with
-  | RNil, [] => True
-  | RCons f T r', (g, t) :: fs' => f = g /\ TT (V T d) t /\ Vrows r' d fs'
-  | _, _ => False
+with Vrows (r : rows) (d : list cand) (dr : list rcand) (fs : list (string * thunk)) {struct r} : Prop :=
+  (* the rows consume the fields: a closed record has none left, a row variable describes the rest *)
+  match r with
+  | RNil => fs = []
+  | RCons f T r' => (exists t, assoc f fs = Some t /\ TT (V T d dr) t) /\ Vrows r' d dr (remove_field f fs)
+  | RVar n => nth n dr (fun _ => False) fs
   end
-with Verows (e : erows) (d : list cand) (v : whnf) {struct e} : Prop :=
-  (* the first row of a tag shadows the later ones, as [erows_lookup] *)
+with Verows (e : erows) (d : list cand) (dr : list rcand) (v : whnf) {struct e} : Prop :=
+  (* the first row of a (tag, payload-ness) shadows the later ones, as [erows_lookup] *)
   match e with
   | ENil => False
-  | EBare t e' => v = VTag t \/ (name_of v <> Some t /\ Verows e' d v)
-  | EArg t T e' => (exists th, v = VVariant t th /\ TT (V T d) th) \/ (name_of v <> Some t /\ Verows e' d v)
+  | EBare t e' => v = VTag t \/ (key_of v <> Some (t, false) /\ Verows e' d dr v)
+  | EArg t T e' => (exists th, v = VVariant t th /\ TT (V T d dr) th) \/ (key_of v <> Some (t, true) /\ Verows e' d dr v)
   end.
 
 (* ------------------------------------------------------------------------ extensionality *)
@@ -71,12 +80,10 @@ Proof.
     intros t Ht; eapply TT_ext; try eassumption; eauto. intros v; symmetry; apply H.
 Qed.
 
-(* a generic "transport" lemma: two (type, environment) pairs with equivalent interpretations of
-   every constructor; used for both weakening and substitution *)
-Definition equiv_at (T1 : ty) (d1 : list cand) (T2 : ty) (d2 : list cand) : Prop :=
-  forall v, V T1 d1 v <-> V T2 d2 v.
-
-(* ------------------------------------------------------------------------------ weakening *)
+(* A generic transport lemma: if two interpretations agree on the variables (in the sense given by
+   the hypotheses on the environments), they agree on all types.  Weakening and both substitution
+   lemmas are instances.  [ft]/[fr] translate the syntax, [Hd]/[Hr] relate the environments at the
+   variables. *)
 
 Lemma nth_insert : forall {A} (d1 d2 : list A) (R dflt : A) n,
   nth (if Nat.leb (List.length d1) n then S n else n) (d1 ++ R :: d2) dflt = nth n (d1 ++ d2) dflt.
@@ -89,180 +96,279 @@ Proof.
     rewrite (app_nth1 d1 (R :: d2)) by lia. rewrite (app_nth1 d1 d2) by lia. reflexivity.
 Qed.
 
-Lemma V_shift_mut :
-  (forall T d1 R d2 v, V (shift (List.length d1) T) (d1 ++ R :: d2) v <-> V T (d1 ++ d2) v) /\
-  (forall r d1 R d2 fs, Vrows (shift_rows (List.length d1) r) (d1 ++ R :: d2) fs <-> Vrows r (d1 ++ d2) fs) /\
-  (forall e d1 R d2 v, Verows (shift_erows (List.length d1) e) (d1 ++ R :: d2) v <-> Verows e (d1 ++ d2) v).
-Proof.
-  apply ty_rows_ind; intros; simpl; try tauto.
-  - (* TArr *)
-    split; intros [ts [-> HF]]; exists ts; split; auto;
-      eapply Forall_TT_ext; try eassumption; intros v'; [symmetry|]; apply H.
-  - (* TFun *)
-    split; intros HV t0 Ht n.
-    + eapply ok_out_ext; [intros v'; symmetry; apply H0|]. apply HV.
-      eapply TT_ext; [|eassumption]. intros v'. apply H.
-    + eapply ok_out_ext; [intros v'; apply H0|]. apply HV.
-      eapply TT_ext; [|eassumption]. intros v'. symmetry. apply H.
-  - (* TRec *)
-    split; intros [fs [-> HF]]; exists fs; (split; [reflexivity|]); apply H in HF || apply H; assumption.
-  - (* TDict *)
-    split; intros [fs [-> HF]]; exists fs; (split; [reflexivity|]);
+(* the common shape of all the cases that only push the equivalence through a constructor *)
+Ltac congr_cases H H0 :=
+  match goal with
+  | |- (exists ts, _ = VArr ts /\ _) <-> _ =>
+      split; intros [ts [-> HF]]; exists ts; (split; [reflexivity|]);
+      (eapply Forall_TT_ext; [|eassumption]); intros v'; [symmetry|]; apply H
+  | |- (forall t, TT _ t -> forall n, ok_out _ _) <-> _ =>
+      split; intros HV t0 Ht n;
+      [ eapply ok_out_ext; [intros v'; symmetry; apply H0|]; apply HV;
+        eapply TT_ext; [|eassumption]; intros v'; apply H
+      | eapply ok_out_ext; [intros v'; apply H0|]; apply HV;
+        eapply TT_ext; [|eassumption]; intros v'; symmetry; apply H ]
+  | |- (exists fs, _ = VRec fs /\ NoDup _ /\ _) <-> _ =>
+      split; intros [fs [-> [Hnd HF]]]; exists fs; (split; [reflexivity|split; [assumption|]]);
+      first [apply H; assumption | apply H in HF; assumption]
+  | |- (exists fs, _ = VRec fs /\ Forall _ fs) <-> _ =>
+      split; intros [fs [-> HF]]; exists fs; (split; [reflexivity|]);
       rewrite Forall_forall in *; intros ft Hin; specialize (HF ft Hin);
-      (eapply TT_ext; [|exact HF]); intros v'; [symmetry|]; apply H.
+      (eapply TT_ext; [|exact HF]); intros v'; [symmetry|]; apply H
+  end.
+
+Ltac rows_cases H H0 :=
+  match goal with
+  | |- ((exists t, assoc _ _ = Some t /\ _) /\ _) <-> _ =>
+      split; intros [[t0 [Ha Ht]] Hr]; (split; [exists t0; split; [assumption|]|]);
+      [ eapply TT_ext; [|eassumption]; intros v'; symmetry; apply H
+      | first [apply H0; assumption | apply H0 in Hr; assumption]
+      | eapply TT_ext; [|eassumption]; intros v'; apply H
+      | first [apply H0; assumption | apply H0 in Hr; assumption] ]
+  | |- (_ = VTag _ \/ _) <-> _ =>
+      split; intros [Hv|[Hn Hr]]; try (left; assumption); right; (split; [assumption|]);
+      first [apply H; assumption | apply H in Hr; assumption]
+  | |- ((exists th, _ = VVariant _ th /\ _) \/ _) <-> _ =>
+      split; intros [[th [Hv Ht]]|[Hn Hr]];
+      [ left; exists th; split; [assumption|]; eapply TT_ext; [|eassumption]; intros v'; symmetry; apply H
+      | right; split; [assumption|]; first [apply H0; assumption | apply H0 in Hr; assumption]
+      | left; exists th; split; [assumption|]; eapply TT_ext; [|eassumption]; intros v'; apply H
+      | right; split; [assumption|]; first [apply H0; assumption | apply H0 in Hr; assumption] ]
+  end.
+
+(* ------------------------------------------------------------------------------ weakening *)
+
+Lemma V_shift_mut :
+  (forall T d1 R d2 dr v, V (shift (List.length d1) T) (d1 ++ R :: d2) dr v <-> V T (d1 ++ d2) dr v) /\
+  (forall r d1 R d2 dr fs, Vrows (shift_rows (List.length d1) r) (d1 ++ R :: d2) dr fs <-> Vrows r (d1 ++ d2) dr fs) /\
+  (forall e d1 R d2 dr v, Verows (shift_erows (List.length d1) e) (d1 ++ R :: d2) dr v <-> Verows e (d1 ++ d2) dr v).
+Proof.
+  apply ty_rows_ind; intros; simpl; try tauto; try (congr_cases H H0; fail); try (rows_cases H H0; fail).
   - (* TEnum *) apply H.
   - (* TVar *)
-    destruct (Nat.leb (List.length d1) n) eqn:Hle; simpl.
-    + pose proof (@nth_insert cand d1 d2 R (fun _ => False) n) as Hn. rewrite Hle in Hn.
-      rewrite Hn. tauto.
-    + pose proof (@nth_insert cand d1 d2 R (fun _ => False) n) as Hn. rewrite Hle in Hn.
-      rewrite Hn. tauto.
+    pose proof (@nth_insert cand d1 d2 R (fun _ => False) n) as Hn.
+    destruct (Nat.leb (List.length d1) n) eqn:Hle; simpl; rewrite Hn; tauto.
   - (* TForall *)
-    split; intros HV R0; specialize (HV R0);
-      apply (H (R0 :: d1) R d2 v); assumption.
-  - (* RCons *)
-    destruct fs as [|[g t0] fs']; [tauto|].
-    split; intros [Hfg [Ht Hr]]; (split; [assumption|split]).
-    + eapply TT_ext; [|eassumption]. intros v'. symmetry. apply H.
-    + apply H0 in Hr. assumption.
-    + eapply TT_ext; [|eassumption]. intros v'. apply H.
-    + apply H0. assumption.
-  - (* EBare *)
-    split; intros [Hv|[Hn Hr]]; try (left; assumption); right; (split; [assumption|]);
-      first [apply H; assumption | apply H in Hr; assumption].
-  - (* EArg *)
-    split; intros [[th [Hv Ht]]|[Hn Hr]].
-    + left. exists th. split; [assumption|]. eapply TT_ext; [|eassumption]. intros v'. symmetry. apply H.
-    + right. split; [assumption|]. apply H0 in Hr. assumption.
-    + left. exists th. split; [assumption|]. eapply TT_ext; [|eassumption]. intros v'. apply H.
-    + right. split; [assumption|]. apply H0. assumption.
+    split; intros HV R0; specialize (HV R0); apply (H (R0 :: d1) R d2 dr v); assumption.
+  - (* TForallR *)
+    split; intros HV R0; specialize (HV R0); apply (H d1 R d2 (R0 :: dr) v); assumption.
 Qed.
 
-Lemma V_shift0 : forall T R d v, V (shift 0 T) (R :: d) v <-> V T d v.
-Proof. intros. apply (proj1 V_shift_mut T [] R d v). Qed.
+Lemma V_shift0 : forall T R d dr v, V (shift 0 T) (R :: d) dr v <-> V T d dr v.
+Proof. intros. apply (proj1 V_shift_mut T [] R d dr v). Qed.
 
-Fixpoint shiftn (k : nat) (T : ty) : ty :=
-  match k with 0 => T | S k' => shift 0 (shiftn k' T) end.
+Lemma Vrows_shift0 : forall r R d dr fs, Vrows (shift_rows 0 r) (R :: d) dr fs <-> Vrows r d dr fs.
+Proof. intros. apply (proj1 (proj2 V_shift_mut) r [] R d dr fs). Qed.
 
-Lemma V_shiftn : forall d1 T d2 v, V (shiftn (List.length d1) T) (d1 ++ d2) v <-> V T d2 v.
+Lemma V_shiftR_mut :
+  (forall T d dr1 R dr2 v, V (shiftR (List.length dr1) T) d (dr1 ++ R :: dr2) v <-> V T d (dr1 ++ dr2) v) /\
+  (forall r d dr1 R dr2 fs, Vrows (shiftR_rows (List.length dr1) r) d (dr1 ++ R :: dr2) fs <-> Vrows r d (dr1 ++ dr2) fs) /\
+  (forall e d dr1 R dr2 v, Verows (shiftR_erows (List.length dr1) e) d (dr1 ++ R :: dr2) v <-> Verows e d (dr1 ++ dr2) v).
 Proof.
-  induction d1 as [|R d1 IH]; intros; simpl; [tauto|].
-  rewrite V_shift0. apply IH.
+  apply ty_rows_ind; intros; simpl; try tauto; try (congr_cases H H0; fail); try (rows_cases H H0; fail).
+  - (* TEnum *) apply H.
+  - (* TForall *)
+    split; intros HV R0; specialize (HV R0); apply (H (R0 :: d) dr1 R dr2 v); assumption.
+  - (* TForallR *)
+    split; intros HV R0; specialize (HV R0); apply (H d (R0 :: dr1) R dr2 v); assumption.
+  - (* RVar *)
+    pose proof (@nth_insert rcand dr1 dr2 R (fun _ => False) n) as Hn.
+    destruct (Nat.leb (List.length dr1) n) eqn:Hle; simpl; rewrite Hn; tauto.
 Qed.
+
+Lemma V_shiftR0 : forall T R d dr v, V (shiftR 0 T) d (R :: dr) v <-> V T d dr v.
+Proof. intros. apply (proj1 V_shiftR_mut T d [] R dr v). Qed.
+
+Lemma Vrows_shiftR0 : forall r R d dr fs, Vrows (shiftR_rows 0 r) d (R :: dr) fs <-> Vrows r d dr fs.
+Proof. intros. apply (proj1 (proj2 V_shiftR_mut) r d [] R dr fs). Qed.
 
 (* ---------------------------------------------------------------------------- substitution *)
 
-Lemma V_subst_mut : forall S d2,
-  (forall T d1 v, V (subst (List.length d1) (shiftn (List.length d1) S) T) (d1 ++ d2) v
-                  <-> V T (d1 ++ V S d2 :: d2) v) /\
-  (forall r d1 fs, Vrows (subst_rows (List.length d1) (shiftn (List.length d1) S) r) (d1 ++ d2) fs
-                   <-> Vrows r (d1 ++ V S d2 :: d2) fs) /\
-  (forall e d1 v, Verows (subst_erows (List.length d1) (shiftn (List.length d1) S) e) (d1 ++ d2) v
-                  <-> Verows e (d1 ++ V S d2 :: d2) v).
+(* [S'] is the substituted type as seen under the binders crossed so far: it means what [S] meant
+   outside.  This invariant is preserved under both kinds of binders by the weakening lemmas. *)
+Lemma V_subst_mut : forall S d2 dr2,
+  (forall T d1 dr1 S', (forall v, V S' (d1 ++ d2) (dr1 ++ dr2) v <-> V S d2 dr2 v) ->
+     forall v, V (subst (List.length d1) S' T) (d1 ++ d2) (dr1 ++ dr2) v
+               <-> V T (d1 ++ V S d2 dr2 :: d2) (dr1 ++ dr2) v) /\
+  (forall r d1 dr1 S', (forall v, V S' (d1 ++ d2) (dr1 ++ dr2) v <-> V S d2 dr2 v) ->
+     forall fs, Vrows (subst_rows (List.length d1) S' r) (d1 ++ d2) (dr1 ++ dr2) fs
+                <-> Vrows r (d1 ++ V S d2 dr2 :: d2) (dr1 ++ dr2) fs) /\
+  (forall e d1 dr1 S', (forall v, V S' (d1 ++ d2) (dr1 ++ dr2) v <-> V S d2 dr2 v) ->
+     forall v, Verows (subst_erows (List.length d1) S' e) (d1 ++ d2) (dr1 ++ dr2) v
+               <-> Verows e (d1 ++ V S d2 dr2 :: d2) (dr1 ++ dr2) v).
 Proof.
-  intros S d2. apply ty_rows_ind; intros; simpl; try tauto.
-  - split; intros [ts [-> HF]]; exists ts; split; auto;
-      eapply Forall_TT_ext; try eassumption; intros v'; [symmetry|]; apply H.
-  - split; intros HV t0 Ht n.
-    + eapply ok_out_ext; [intros v'; symmetry; apply H0|]. apply HV.
-      eapply TT_ext; [|eassumption]. intros v'. apply H.
-    + eapply ok_out_ext; [intros v'; apply H0|]. apply HV.
-      eapply TT_ext; [|eassumption]. intros v'. symmetry. apply H.
-  - split; intros [fs [-> HF]]; exists fs; (split; [reflexivity|]); apply H in HF || apply H; assumption.
-  - (* TDict *)
-    split; intros [fs [-> HF]]; exists fs; (split; [reflexivity|]);
-      rewrite Forall_forall in *; intros ft Hin; specialize (HF ft Hin);
-      (eapply TT_ext; [|exact HF]); intros v'; [symmetry|]; apply H.
-  - (* TEnum *) apply H.
+  intros S d2 dr2. apply ty_rows_ind; intros; simpl; try tauto;
+    try (specialize (H d1 dr1 S' H1); specialize (H0 d1 dr1 S' H1); first [congr_cases H H0 | rows_cases H H0]; fail);
+    try (specialize (H d1 dr1 S' H0); first [congr_cases H H0 | rows_cases H H0]; fail).
+  - (* TEnum *) apply H. assumption.
   - (* TVar *)
     destruct (Nat.compare n (List.length d1)) eqn:Hc.
     + apply Nat.compare_eq in Hc. subst n.
-      rewrite app_nth2 by lia. rewrite Nat.sub_diag. simpl. apply V_shiftn.
+      rewrite app_nth2 by lia. rewrite Nat.sub_diag. simpl. apply H.
     + apply Nat.compare_lt_iff in Hc. simpl.
       rewrite (app_nth1 d1 d2) by lia. rewrite (app_nth1 d1 (_ :: d2)) by lia. tauto.
     + apply Nat.compare_gt_iff in Hc. simpl.
       rewrite (app_nth2 d1 d2) by lia. rewrite (app_nth2 d1 (_ :: d2)) by lia.
       replace (n - List.length d1) with (Datatypes.S (pred n - List.length d1)) by lia. simpl. tauto.
   - (* TForall *)
-    split; intros HV R0; specialize (HV R0); apply (H (R0 :: d1) v); assumption.
-  - destruct fs as [|[g t0] fs']; [tauto|].
-    split; intros [Hfg [Ht Hr]]; (split; [assumption|split]).
-    + eapply TT_ext; [|eassumption]. intros v'. symmetry. apply H.
-    + apply H0 in Hr. assumption.
-    + eapply TT_ext; [|eassumption]. intros v'. apply H.
-    + apply H0. assumption.
-  - (* EBare *)
-    split; intros [Hv|[Hn Hr]]; try (left; assumption); right; (split; [assumption|]);
-      first [apply H; assumption | apply H in Hr; assumption].
-  - (* EArg *)
-    split; intros [[th [Hv Ht]]|[Hn Hr]].
-    + left. exists th. split; [assumption|]. eapply TT_ext; [|eassumption]. intros v'. symmetry. apply H.
-    + right. split; [assumption|]. apply H0 in Hr. assumption.
-    + left. exists th. split; [assumption|]. eapply TT_ext; [|eassumption]. intros v'. apply H.
-    + right. split; [assumption|]. apply H0. assumption.
+    split; intros HV R0; specialize (HV R0);
+      apply (H (R0 :: d1) dr1 (shift 0 S')); try assumption;
+      intros v'; simpl; rewrite V_shift0; apply H0.
+  - (* TForallR *)
+    split; intros HV R0; specialize (HV R0);
+      apply (H d1 (R0 :: dr1) (shiftR 0 S')); try assumption;
+      intros v'; simpl; rewrite V_shiftR0; apply H0.
 Qed.
 
-Lemma V_subst0 : forall T S d v, V (subst 0 S T) d v <-> V T (V S d :: d) v.
-Proof. intros. apply (proj1 (V_subst_mut S d) T [] v). Qed.
+Lemma V_subst0 : forall T S d dr v, V (subst 0 S T) d dr v <-> V T (V S d dr :: d) dr v.
+Proof. intros. apply (proj1 (V_subst_mut S d dr) T [] [] S); intros; tauto. Qed.
+
+Lemma V_substR_mut : forall R d2 dr2,
+  (forall T d1 dr1 R', (forall fs, Vrows R' (d1 ++ d2) (dr1 ++ dr2) fs <-> Vrows R d2 dr2 fs) ->
+     forall v, V (substR (List.length dr1) R' T) (d1 ++ d2) (dr1 ++ dr2) v
+               <-> V T (d1 ++ d2) (dr1 ++ Vrows R d2 dr2 :: dr2) v) /\
+  (forall r d1 dr1 R', (forall fs, Vrows R' (d1 ++ d2) (dr1 ++ dr2) fs <-> Vrows R d2 dr2 fs) ->
+     forall fs, Vrows (substR_rows (List.length dr1) R' r) (d1 ++ d2) (dr1 ++ dr2) fs
+                <-> Vrows r (d1 ++ d2) (dr1 ++ Vrows R d2 dr2 :: dr2) fs) /\
+  (forall e d1 dr1 R', (forall fs, Vrows R' (d1 ++ d2) (dr1 ++ dr2) fs <-> Vrows R d2 dr2 fs) ->
+     forall v, Verows (substR_erows (List.length dr1) R' e) (d1 ++ d2) (dr1 ++ dr2) v
+               <-> Verows e (d1 ++ d2) (dr1 ++ Vrows R d2 dr2 :: dr2) v).
+Proof.
+  intros R d2 dr2. apply ty_rows_ind; intros; simpl; try tauto;
+    try (specialize (H d1 dr1 R' H1); specialize (H0 d1 dr1 R' H1); first [congr_cases H H0 | rows_cases H H0]; fail);
+    try (specialize (H d1 dr1 R' H0); first [congr_cases H H0 | rows_cases H H0]; fail).
+  - (* TEnum *) apply H. assumption.
+  - (* TForall *)
+    split; intros HV R0; specialize (HV R0);
+      apply (H (R0 :: d1) dr1 (shift_rows 0 R')); try assumption;
+      intros fs'; simpl; rewrite Vrows_shift0; apply H0.
+  - (* TForallR *)
+    split; intros HV R0; specialize (HV R0);
+      apply (H d1 (R0 :: dr1) (shiftR_rows 0 R')); try assumption;
+      intros fs'; simpl; rewrite Vrows_shiftR0; apply H0.
+  - (* RVar *)
+    destruct (Nat.compare n (List.length dr1)) eqn:Hc.
+    + apply Nat.compare_eq in Hc. subst n.
+      rewrite app_nth2 by lia. rewrite Nat.sub_diag. simpl. apply H.
+    + apply Nat.compare_lt_iff in Hc. simpl.
+      rewrite (app_nth1 dr1 dr2) by lia. rewrite (app_nth1 dr1 (_ :: dr2)) by lia. tauto.
+    + apply Nat.compare_gt_iff in Hc. simpl.
+      rewrite (app_nth2 dr1 dr2) by lia. rewrite (app_nth2 dr1 (_ :: dr2)) by lia.
+      replace (n - List.length dr1) with (Datatypes.S (pred n - List.length dr1)) by lia. simpl. tauto.
+Qed.
+
+Lemma V_substR0 : forall T R d dr v, V (substR 0 R T) d dr v <-> V T d (Vrows R d dr :: dr) v.
+Proof. intros. apply (proj1 (V_substR_mut R d dr) T [] [] R); intros; tauto. Qed.
 
 (* ------------------------------------------------------------------------------- records *)
 
-Lemma Vrows_lookup : forall r d fs f T,
-  Vrows r d fs -> rows_lookup f r = Some T -> exists t, assoc f fs = Some t /\ TT (V T d) t.
+Lemma assoc_remove_neq : forall f g (fs : list (string * thunk)),
+  String.eqb f g = false -> assoc f (remove_field g fs) = assoc f fs.
 Proof.
-  induction r as [|g T' r IH]; intros d fs f T HV Hl; simpl in *; [discriminate|].
-  destruct fs as [|[g' t] fs']; [contradiction|]. destruct HV as [<- [Ht Hr]].
-  simpl. destruct (String.eqb f g).
-  - inversion Hl; subst. exists t. split; [reflexivity|assumption].
-  - eapply IH; eauto.
+  intros f g fs Hne. induction fs as [|[h t] fs IH]; simpl; [reflexivity|].
+  destruct (String.eqb h g) eqn:Hhg; simpl.
+  - apply String.eqb_eq in Hhg. subst h. rewrite Hne. exact IH.
+  - destruct (String.eqb f h); [reflexivity|exact IH].
+Qed.
+
+Lemma Vrows_lookup : forall r d dr fs f T,
+  Vrows r d dr fs -> rows_lookup f r = Some T -> exists t, assoc f fs = Some t /\ TT (V T d dr) t.
+Proof.
+  induction r as [|g T' r IH|n]; intros d dr fs f T HV Hl; simpl in *; try discriminate.
+  destruct HV as [[t [Ha Ht]] Hr].
+  destruct (String.eqb f g) eqn:Hfg.
+  - apply String.eqb_eq in Hfg. subst. inversion Hl; subst. exists t. split; assumption.
+  - destruct (IH d dr _ f T Hr Hl) as [t' [Ha' Ht']]. exists t'. split; [|assumption].
+    rewrite <- Ha'. symmetry. apply assoc_remove_neq. assumption.
+Qed.
+
+Lemma remove_field_notin : forall f (fs : list (string * thunk)),
+  ~ In f (map fst fs) -> remove_field f fs = fs.
+Proof.
+  intros f fs Hn. induction fs as [|[g t] fs IH]; simpl; [reflexivity|].
+  destruct (String.eqb g f) eqn:Hgf.
+  - exfalso. apply Hn. left. simpl. apply String.eqb_eq in Hgf. assumption.
+  - simpl. f_equal. apply IH. intros Hin. apply Hn. right. assumption.
+Qed.
+
+Lemma remove_field_In : forall f ft (fs : list (string * thunk)),
+  In ft (remove_field f fs) <-> In ft fs /\ fst ft <> f.
+Proof.
+  intros f ft fs. unfold remove_field. rewrite filter_In. split; intros [H1 H2]; split; auto.
+  - intros Heq. rewrite Heq in H2. rewrite String.eqb_refl in H2. discriminate.
+  - destruct (String.eqb (fst ft) f) eqn:Heq; [|reflexivity].
+    apply String.eqb_eq in Heq. contradiction.
+Qed.
+
+Lemma NoDup_remove_field : forall f (fs : list (string * thunk)),
+  NoDup (map fst fs) -> NoDup (map fst (remove_field f fs)).
+Proof.
+  intros f fs. induction fs as [|[g t] fs IH]; simpl; intros Hnd; [constructor|].
+  inversion Hnd; subst. destruct (String.eqb g f); simpl; [apply IH; assumption|].
+  constructor; [|apply IH; assumption].
+  intros Hin. apply H1. apply in_map_iff in Hin. destruct Hin as [ft [Hfst Hin]].
+  apply remove_field_In in Hin. apply in_map_iff. exists ft. tauto.
+Qed.
+
+Lemma assoc_In : forall {A} f (fs : list (string * A)) t, assoc f fs = Some t -> In (f, t) fs.
+Proof.
+  induction fs as [|[g u] fs IH]; simpl; intros t H; [discriminate|].
+  destruct (String.eqb f g) eqn:Hfg.
+  - apply String.eqb_eq in Hfg. inversion H; subst. left. reflexivity.
+  - right. apply IH. assumption.
+Qed.
+
+Lemma NoDup_assoc : forall (fs : list (string * thunk)) f t,
+  NoDup (map fst fs) -> In (f, t) fs -> assoc f fs = Some t.
+Proof.
+  induction fs as [|[g u] fs IH]; simpl; intros f t Hnd Hin; [contradiction|].
+  inversion Hnd; subst. destruct Hin as [Heq|Hin].
+  - inversion Heq; subst. rewrite String.eqb_refl. reflexivity.
+  - destruct (String.eqb f g) eqn:Hfg.
+    + apply String.eqb_eq in Hfg. subst. exfalso. apply H1. apply in_map_iff. exists (g, t). split; auto.
+    + apply IH; assumption.
 Qed.
 
 (* --------------------------------------------------------------------------------- enums *)
 
-Lemma Verows_tag : forall e d t, erows_lookup t e = Some None -> Verows e d (VTag t).
+Lemma Verows_tag : forall e d dr t, erows_lookup t false e = Some None -> Verows e d dr (VTag t).
 Proof.
-  induction e as [|u e IH|u T e IH]; simpl; intros d t H; [discriminate| |].
-  - destruct (String.eqb t u) eqn:Heq.
+  induction e as [|u e IH|u T e IH]; simpl; intros d dr t H; [discriminate| |].
+  - destruct (String.eqb t u) eqn:Heq; simpl in H.
     + apply String.eqb_eq in Heq. subst. left. reflexivity.
     + right. split; [|apply IH; assumption]. simpl. intros Hc. inversion Hc; subst.
       rewrite String.eqb_refl in Heq. discriminate.
-  - destruct (String.eqb t u) eqn:Heq; [discriminate|].
-    right. split; [|apply IH; assumption]. simpl. intros Hc. inversion Hc; subst.
-    rewrite String.eqb_refl in Heq. discriminate.
+  - rewrite andb_false_r in H. right. split; [|apply IH; assumption]. simpl. discriminate.
 Qed.
 
-Lemma Verows_variant : forall e d t T th,
-  erows_lookup t e = Some (Some T) -> TT (V T d) th -> Verows e d (VVariant t th).
+Lemma Verows_variant : forall e d dr t T th,
+  erows_lookup t true e = Some (Some T) -> TT (V T d dr) th -> Verows e d dr (VVariant t th).
 Proof.
-  induction e as [|u e IH|u U e IH]; simpl; intros d t T th H Ht; [discriminate| |].
-  - destruct (String.eqb t u) eqn:Heq; [discriminate|].
-    right. split; [|eapply IH; eassumption]. simpl. intros Hc. inversion Hc; subst.
-    rewrite String.eqb_refl in Heq. discriminate.
-  - destruct (String.eqb t u) eqn:Heq.
+  induction e as [|u e IH|u U e IH]; simpl; intros d dr t T th H Ht; [discriminate| |].
+  - rewrite andb_false_r in H. right. split; [|eapply IH; eassumption]. simpl. discriminate.
+  - destruct (String.eqb t u) eqn:Heq; simpl in H.
     + apply String.eqb_eq in Heq. subst. inversion H; subst. left. exists th. split; [reflexivity|assumption].
     + right. split; [|eapply IH; eassumption]. simpl. intros Hc. inversion Hc; subst.
       rewrite String.eqb_refl in Heq. discriminate.
 Qed.
 
-Lemma Verows_inv : forall e d v, Verows e d v ->
-  (exists t, v = VTag t /\ erows_lookup t e = Some None) \/
-  (exists t th T, v = VVariant t th /\ erows_lookup t e = Some (Some T) /\ TT (V T d) th).
+Lemma Verows_inv : forall e d dr v, Verows e d dr v ->
+  (exists t, v = VTag t /\ erows_lookup t false e = Some None) \/
+  (exists t th T, v = VVariant t th /\ erows_lookup t true e = Some (Some T) /\ TT (V T d dr) th).
 Proof.
-  induction e as [|u e IH|u U e IH]; simpl; intros d v H; [contradiction| |].
+  induction e as [|u e IH|u U e IH]; simpl; intros d dr v H; [contradiction| |].
   - destruct H as [->|[Hn Hr]].
     + left. exists u. rewrite String.eqb_refl. split; reflexivity.
-    + destruct (IH d v Hr) as [[t [-> Hl]]|[t [th [T [-> [Hl Ht]]]]]].
-      * left. exists t. split; [reflexivity|]. destruct (String.eqb t u) eqn:Heq; [|assumption].
+    + destruct (IH d dr v Hr) as [[t [-> Hl]]|[t [th [T [-> [Hl Ht]]]]]].
+      * left. exists t. split; [reflexivity|]. destruct (String.eqb t u) eqn:Heq; simpl; [|assumption].
         apply String.eqb_eq in Heq. subst. exfalso. apply Hn. reflexivity.
       * right. exists t, th, T. split; [reflexivity|]. split; [|assumption].
-        destruct (String.eqb t u) eqn:Heq; [|assumption].
-        apply String.eqb_eq in Heq. subst. exfalso. apply Hn. reflexivity.
+        rewrite andb_false_r. assumption.
   - destruct H as [[th [-> Ht]]|[Hn Hr]].
     + right. exists u, th, U. rewrite String.eqb_refl. split; [reflexivity|]. split; [reflexivity|assumption].
-    + destruct (IH d v Hr) as [[t [-> Hl]]|[t [th [T [-> [Hl Ht]]]]]].
-      * left. exists t. split; [reflexivity|]. destruct (String.eqb t u) eqn:Heq; [|assumption].
-        apply String.eqb_eq in Heq. subst. exfalso. apply Hn. reflexivity.
+    + destruct (IH d dr v Hr) as [[t [-> Hl]]|[t [th [T [-> [Hl Ht]]]]]].
+      * left. exists t. split; [reflexivity|]. rewrite andb_false_r. assumption.
       * right. exists t, th, T. split; [reflexivity|]. split; [|assumption].
-        destruct (String.eqb t u) eqn:Heq; [|assumption].
+        destruct (String.eqb t u) eqn:Heq; simpl; [|assumption].
         apply String.eqb_eq in Heq. subst. exfalso. apply Hn. reflexivity.
 Qed.
